@@ -1,11 +1,11 @@
 (* Tie_wiring_AeroPoint.v - GENERATED once by harness/gen_ties.py: the data-flow graphs of the canonical "AeroPoint" models regenerated from the live
    groups are the reviewed ones (finite comparison of lists of strings, by computation). *)
 From Coq Require Import String List Bool.
-From OAS Require Import Wiring WiringReviewed.
+From OAS Require Import TieBase Wiring WiringReviewed.
 Import ListNotations.
 Open Scope string_scope.
 Definition wiring_family_AeroPoint (w : list (string * list (string * string))) := filter (fun p => prefix "AeroPoint" (fst p)) w.
 Lemma wiring_AeroPoint_reviewed : wiring_family_AeroPoint gen_wiring = wiring_family_AeroPoint reviewed_wiring.
-Proof. reflexivity. Qed.
+Proof. apply wiring_eqb_sound. vm_compute. reflexivity. Qed.
 Lemma wiring_AeroPoint_nonempty : wiring_family_AeroPoint reviewed_wiring <> [].
 Proof. discriminate. Qed.
